@@ -151,24 +151,10 @@ Proof.
 Qed.
 
 (* contract = replace by the letterwise product, ValueError on unequal lengths before anything is touched *)
-Theorem gen_c_contract s p q : py_C_contract s p q =
-  if Nat.eqb (length p) (length q) then (FNone, fst (step true s (Replace p (smul p q)))) else (FRaised verr, s).
+Theorem gen_c_contract s p q : py_C_contract s p q = (res_of (snd (step true s (Contract p q))), fst (step true s (Contract p q))).
 Proof.
-  unfold py_C_contract. destruct (Nat.eqb (length p) (length q)); [|reflexivity]. rewrite gen_c_replace. reflexivity.
-Qed.
-(* on a collection whose strings all have one length the model's Contract transition is that *)
-Lemma smul_length : forall p q, length p = length q -> length (smul p q) = length p.
-Proof. induction p as [|a p IH]; destruct q as [|b q]; cbn; intros H; try discriminate; [reflexivity|]. rewrite IH by lia. reflexivity. Qed.
-Theorem gen_c_contract_uniform s p q : uniform (gens s) ->
-  py_C_contract s p q = (res_of (snd (step true s (Contract p q))), fst (step true s (Contract p q))).
-Proof.
-  intros Hu. rewrite gen_c_contract. cbn [step]. destruct (Nat.eqb_spec (length p) (length q)) as [E|E]; [|reflexivity].
-  destruct (Collection.find p (gens s)) as [k|] eqn:Ef; [|reflexivity]. cbn [fst snd res_of]. f_equal.
-  assert (Hin : In p (gens s)).
-  { clear - Ef. revert k Ef. induction (gens s) as [|a l IH]; intros k Ef; [discriminate|]. cbn [Collection.find] in Ef.
-    destruct (pstr_eqb p a) eqn:Ea; [left; symmetry; apply pstr_eqb_eq; exact Ea|]. destruct (Collection.find p l) as [j|]; [|discriminate]. right. apply (IH j eq_refl). }
-  assert (Hl : length (smul p q) = maxlen (gens s)) by (rewrite (smul_length p q E); apply Hu; exact Hin).
-  unfold processing. destruct (gens s) as [|a l] eqn:Eg; [destruct Hin|]. rewrite Hl, Nat.ltb_irrefl. reflexivity.
+  unfold py_C_contract. cbn [step]. destruct (Nat.eqb (length p) (length q)); [|reflexivity]. rewrite gen_c_replace. cbn [step callM].
+  destruct (Collection.find p (gens s)); [destruct (processing true (gens s) (smul p q))|]; reflexivity.
 Qed.
 
 (* ---------- histories ---------- *)
@@ -179,15 +165,15 @@ Definition py_step (s : coll) (o : op) : coll :=
   | DelItem i => snd (py_C_delitem s i) | Replace p q => snd (py_C_replace s p q) | Contract p q => snd (py_C_contract s p q)
   | Expand n => snd (py_C_expand s (Z.of_nat n)) | Query => snd (py_C_get_class s) | Sort => fst (step true s Sort)
   end.
-Theorem gen_step s o : uniform (gens s) -> py_step s o = fst (step true s o).
+Theorem gen_step s o : py_step s o = fst (step true s o).
 Proof.
-  intros Hu. destruct o as [p|i p|p|i|p q|p q|n| |]; unfold py_step.
+  destruct o as [p|i p|p|i|p q|p q|n| |]; unfold py_step.
   - rewrite gen_c_append. reflexivity.
   - rewrite gen_c_insert. reflexivity.
   - rewrite gen_c_remove. reflexivity.
   - rewrite gen_c_delitem. reflexivity.
   - rewrite gen_c_replace. reflexivity.
-  - rewrite (gen_c_contract_uniform s p q Hu). reflexivity.
+  - rewrite gen_c_contract. reflexivity.
   - rewrite gen_c_expand by lia. rewrite Nat2Z.id. reflexivity.
   - reflexivity.
   - rewrite gen_c_get_class. reflexivity.
@@ -196,26 +182,26 @@ Lemma fst_run : forall ops s outs, fst (fold_left (fun acc o => let (s', r) := s
   fold_left (fun s o => fst (step true s o)) ops s.
 Proof. induction ops as [|o ops IH]; intros s outs; [reflexivity|]. cbn [fold_left fst snd]. destruct (step true s o) as [s' r] eqn:E. rewrite IH. cbn [fst]. reflexivity. Qed.
 (* every finite history of the source's edits and queries, from any constructed collection, is the run of the model *)
-Theorem gen_history : forall ops s, uniform (gens s) -> fold_left py_step ops s = fst (run true s ops).
+Theorem gen_history : forall ops s, fold_left py_step ops s = fst (run true s ops).
 Proof.
-  intros ops s Hu. unfold run. rewrite fst_run. revert s Hu. induction ops as [|o ops IH]; intros s Hu; [reflexivity|].
-  cbn [fold_left]. rewrite (gen_step s o Hu). apply IH. apply uniform_step. exact Hu.
+  intros ops s. unfold run. rewrite fst_run. revert s. induction ops as [|o ops IH]; intros s; [reflexivity|].
+  cbn [fold_left]. rewrite (gen_step s o). apply IH.
 Qed.
 (* C10 read on the source: after any history, all strings have one length, and what get_class answers was computed from
    a permutation of the strings held now *)
 Theorem gen_uniform_after_history ops l : uniform (gens (fold_left py_step ops (mk l))).
 Proof.
   assert (H : forall ops s, uniform (gens s) -> uniform (gens (fold_left py_step ops s))).
-  { induction ops0 as [|o ops0 IH]; intros s Hu; [exact Hu|]. cbn [fold_left]. apply IH. rewrite (gen_step s o Hu). apply uniform_step. exact Hu. }
+  { induction ops0 as [|o ops0 IH]; intros s Hu; [exact Hu|]. cbn [fold_left]. apply IH. rewrite (gen_step s o). apply uniform_step. exact Hu. }
   apply H. apply uniform_mk.
 Qed.
 Theorem gen_answer_fresh ops l c : let s := fold_left py_step ops (mk l) in
   fst (py_C_get_class s) = FRet (Some c) -> Permutation.Permutation c (gens s).
 Proof.
   cbv zeta. set (s := fold_left py_step ops (mk l)). intros H.
-  assert (HI : forall ops s0, uniform (gens s0) -> Inv s0 -> Inv (fold_left py_step ops s0)).
-  { induction ops0 as [|o ops0 IH]; intros s0 Hu Hi; [exact Hi|]. cbn [fold_left]. rewrite (gen_step s0 o Hu). apply IH; [apply uniform_step; exact Hu|apply inv_step; exact Hi]. }
-  assert (Hs : Inv s) by (apply HI; [apply uniform_mk|apply inv_mk]).
+  assert (HI : forall ops s0, Inv s0 -> Inv (fold_left py_step ops s0)).
+  { induction ops0 as [|o ops0 IH]; intros s0 Hi; [exact Hi|]. cbn [fold_left]. rewrite (gen_step s0 o). apply IH. apply inv_step. exact Hi. }
+  assert (Hs : Inv s) by (apply HI; apply inv_mk).
   rewrite gen_c_get_class in H. cbn [fst] in H. destruct (snd (step true s Query)) as [| | |c'] eqn:E; try discriminate. injection H as <-.
   apply (answer_step s Query c' Hs E).
 Qed.
@@ -239,7 +225,6 @@ Print Assumptions gen_c_remove.
 Print Assumptions gen_c_get_class.
 Print Assumptions gen_c_replace.
 Print Assumptions gen_c_contract.
-Print Assumptions gen_c_contract_uniform.
 Print Assumptions gen_step.
 Print Assumptions gen_history.
 Print Assumptions gen_uniform_after_history.
